@@ -109,6 +109,36 @@ def fmt_vec(p):
     return ' '.join(repr(float(x)) if float(x) != int(x) else str(int(x)) for x in p)
 
 
+class FoldDict(dict):
+    """Snapshot of an entity's keys with the entity's own case-insensitive lookup."""
+
+    def __init__(self, pairs):
+        super().__init__((k.casefold(), v) for k, v in pairs)
+
+    def __contains__(self, k):
+        return dict.__contains__(self, k.casefold())
+
+    def __getitem__(self, k):
+        return dict.__getitem__(self, k.casefold())
+
+    def get(self, k, d=None):
+        return dict.get(self, k.casefold(), d)
+
+
+def case_variant(rng, s, p=0.25):
+    """Another spelling of a classname / key that the code compares case-insensitively (casefold)."""
+    if rng.random() >= p or not s:
+        return s
+    k = rng.randrange(4)
+    if k == 0:
+        return s.upper()
+    if k == 1:
+        return s[0].upper() + s[1:]
+    if k == 2:
+        return '_'.join(w[:1].upper() + w[1:] for w in s.split('_'))
+    return ''.join(c.upper() if rng.random() < 0.5 else c for c in s)
+
+
 def rand_name(rng):
     return rng.choice(NAME_POOL)
 
@@ -294,7 +324,7 @@ def gen_template(rng, impl, n_brush=None, n_ent=None, numeric_vars=False, files=
             kv['Template02'] = rand_name(rng)
         if numeric_vars and 'origin' in kv and rng.random() < 0.5:
             kv['origin'] = rng.choice(['$ox 8 -8', '16 $oy $oz', '$ox $oy $oz'])
-        ent = vmf.create_ent(cls, **kv)
+        ent = vmf.create_ent(case_variant(rng, cls), **{case_variant(rng, k, 0.15): v for k, v in kv.items()})
         if cls == 'func_instance':
             for i in range(rng.randrange(0, 4)):
                 ent.fixup['$' + rng.choice(['color', 'n', 'at', 'Var', 'v2', 'long_name'])] = rng.choice(FIXVALS)
